@@ -652,6 +652,8 @@ func flowsToReturn(v ssa.Value) bool {
 				work = append(work, y)
 			case *ssa.MakeInterface:
 				work = append(work, y)
+			case *ssa.Extract:
+				work = append(work, y)
 			case *ssa.Store:
 				if al, ok := y.Addr.(*ssa.Alloc); ok && y.Val == x && al.Referrers() != nil {
 					for _, r2 := range *al.Referrers() {
